@@ -25,6 +25,8 @@ def replay_roundtrip(lengths, blocked, api, records=None):
         data = f.getvalue()
     else:
         data = mciipm.vbs_list_to_bytes(recs, blocked=blocked)
+        if mciipm.vbs_list_to_bytes(recs, blocked=blocked) != data:
+            return True, 'a second call of vbs_list_to_bytes with the same records returns something else', 'C03/second-call'
     E = ref.vbs_ref(recs)
     if blocked:
         prob = ref.blocked_problem(data, E, True)
